@@ -177,3 +177,653 @@ Proof.
   intros Hx Hy. apply label_info_ok in Hx. apply label_info_ok in Hy.
   destruct Hx as (_ & _ & ->). destruct Hy as (_ & _ & H). repeat apply app_inv_head in H. exact H.
 Qed.
+
+(* ------------------------------------------------------------------ *)
+(* theorems over arbitrary oracles satisfying the stated laws          *)
+(* ------------------------------------------------------------------ *)
+Ltac inv_bind H :=
+  let a := fresh "v" in let H1 := fresh H "a" in let H2 := fresh H "b" in
+  apply bind_ok in H; destruct H as (a & H1 & H2).
+
+Section HpkeTheorems.
+  Variable extract : hash -> bytes -> bytes -> bytes.
+  Variable expand : hash -> bytes -> bytes -> nat -> bytes.
+  Variable dh : kem -> bytes -> bytes -> option bytes.
+  Variable dh_pub : kem -> bytes -> option bytes.
+  Variable mlkem_decap : kem -> bytes -> bytes -> option bytes.
+  Variable mlkem_encap : kem -> bytes -> bytes -> option (bytes * bytes).
+  Variable mlkem_pub : kem -> bytes -> option bytes.
+  Variable shake256 : bytes -> nat -> bytes.
+  Variable sha3_256 : bytes -> bytes.
+  Variable seal : aead -> bytes -> bytes -> bytes -> bytes -> bytes.
+  Variable open : aead -> bytes -> bytes -> bytes -> bytes -> option bytes.
+
+  Notation Encap := (encap extract expand dh dh_pub mlkem_encap sha3_256).
+  Notation Decap := (decap extract expand dh dh_pub mlkem_decap shake256 sha3_256).
+  Notation PubOf := (public_from_private dh_pub mlkem_pub shake256).
+  Notation KeySchedule := (key_schedule extract expand).
+  Notation ContextSeal := (context_seal seal).
+  Notation ContextOpen := (context_open open).
+  Notation RawEncrypt := (raw_encrypt extract expand dh dh_pub mlkem_encap sha3_256 seal).
+  Notation RawDecrypt := (raw_decrypt extract expand dh dh_pub mlkem_decap shake256 sha3_256 open).
+  Notation Encrypt := (hpke_encrypt extract expand dh dh_pub mlkem_encap sha3_256 seal).
+  Notation Decrypt := (hpke_decrypt extract expand dh dh_pub mlkem_decap shake256 sha3_256 open).
+  Notation Recompute := (hpke_recompute extract expand dh dh_pub mlkem_decap shake256 sha3_256 seal).
+
+
+  (* ---- laws of the stdlib primitives (hypotheses of the theorems) ---- *)
+  (* HKDF-Expand returns as many bytes as asked *)
+  Hypothesis expand_len : forall h prk info n, length (expand h prk info n) = n.
+  (* Diffie-Hellman commutes on genuine public keys *)
+  Hypothesis dh_comm : forall k a b A B, is_dhkem k = true ->
+    dh_pub k a = Some A -> dh_pub k b = Some B -> dh k a B = dh k b A.
+  (* public keys and accepted private keys have the lengths of the group *)
+  Hypothesis dh_pub_len : forall k sk p, is_dhkem k = true ->
+    dh_pub k sk = Some p -> length p = n_pk k /\ length sk = n_sk k.
+  (* ML-KEM correctness and sizes *)
+  Hypothesis mlkem_correct : forall k seed pk coins ss ct, is_mlkem k = true ->
+    mlkem_pub k seed = Some pk -> mlkem_encap k pk coins = Some (ss, ct) ->
+    mlkem_decap k seed ct = Some ss /\ length ct = n_enc k.
+  Hypothesis mlkem_pub_len : forall k seed pk, is_mlkem k = true ->
+    mlkem_pub k seed = Some pk -> length pk = n_pk k /\ length seed = 64%nat.
+  (* AEAD: Open inverts Seal, and accepts nothing else *)
+  Hypothesis open_seal : forall a k n ad p, open a k n ad (seal a k n ad p) = Some p.
+  Hypothesis open_sound : forall a k n ad c p, open a k n ad c = Some p -> c = seal a k n ad p.
+
+  Lemma dh_comm' k a b A B : dh_pub k a = Some A -> dh_pub k b = Some B -> is_dhkem k = true ->
+    dh k a B = dh k b A.
+  Proof. intros; apply dh_comm; auto. Qed.
+  Lemma dh_pub_len' k sk p : dh_pub k sk = Some p -> is_dhkem k = true ->
+    length p = n_pk k /\ length sk = n_sk k.
+  Proof. intros; apply dh_pub_len; auto. Qed.
+  Lemma mlkem_correct' k seed pk coins ss ct :
+    mlkem_pub k seed = Some pk -> mlkem_encap k pk coins = Some (ss, ct) -> is_mlkem k = true ->
+    mlkem_decap k seed ct = Some ss /\ length ct = n_enc k.
+  Proof. intros; eapply mlkem_correct; eauto. Qed.
+  Lemma mlkem_pub_len' k seed pk : mlkem_pub k seed = Some pk -> is_mlkem k = true ->
+    length pk = n_pk k /\ length seed = 64%nat.
+  Proof. intros; eapply mlkem_pub_len; eauto. Qed.
+
+  (* ---- the KEM law, derived for every KEM ---- *)
+  Lemma xw_expand_ok sk seedM skX :
+    xw_expand shake256 sk = Ok (seedM, skX) -> length sk = 32%nat.
+  Proof.
+    unfold xw_expand. destruct (Nat.eqb_spec (length sk) xw_secret_key_size); simpl; intros H; [|discriminate].
+    exact e.
+  Qed.
+
+  Lemma kem_law k skR pkR eph ss enc :
+    PubOf k skR = Ok pkR -> Encap k pkR eph = Ok (ss, enc) ->
+    Decap k enc skR = Ok ss /\ length enc = n_enc k /\ length skR = n_sk k.
+  Proof.
+    intros Hpub Henc.
+    destruct k.
+    1-4: (
+      unfold public_from_private in Hpub; unfold encap in Henc; unfold decap; cbv beta iota in Hpub, Henc |- *;
+      destruct (dh_pub _ skR) as [p|] eqn:Ep; [|discriminate];
+      assert (p = pkR) by congruence; subst p;
+      destruct (dh _ eph pkR) as [dhv|] eqn:Ed; [|discriminate];
+      destruct (dh_pub _ eph) as [e|] eqn:Ee; [|discriminate];
+      inv_bind Henc; assert (v = ss /\ e = enc) as [-> ->] by (split; congruence);
+      rewrite (dh_comm' _ skR eph pkR enc Ep Ee eq_refl), Ed;
+      destruct (dh_pub_len' _ _ _ Ee eq_refl) as [L1 _]; destruct (dh_pub_len' _ _ _ Ep eq_refl) as [_ L2];
+      auto).
+    1-2: (
+      unfold public_from_private in Hpub; unfold encap in Henc; unfold decap; cbv beta iota in Hpub, Henc |- *;
+      destruct (mlkem_pub _ skR) as [p|] eqn:Ep; [|discriminate];
+      assert (p = pkR) by congruence; subst p;
+      destruct (mlkem_encap _ pkR eph) as [[s c]|] eqn:Ee; [|discriminate];
+      assert (s = ss /\ c = enc) as [-> ->] by (split; congruence);
+      destruct (mlkem_correct' _ _ _ _ _ _ Ep Ee eq_refl) as [D L]; rewrite D;
+      destruct (mlkem_pub_len' _ _ _ Ep eq_refl) as [_ L2]; auto).
+    (* X-Wing *)
+    unfold public_from_private in Hpub; unfold encap in Henc; unfold decap; cbv beta iota in Hpub, Henc |- *.
+    unfold xw_pub, xw_public in Hpub. unfold xw_enc, xw_encap in Henc. unfold xw_dec, xw_decap.
+    inv_bind Hpub. destruct v as [seedM skX].
+    pose proof (xw_expand_ok _ _ _ Hpuba) as Lsk.
+    destruct (mlkem_pub MLKEM768 seedM) as [pkM|] eqn:EpM; [|discriminate].
+    destruct (dh_pub X25519 skX) as [pkX|] eqn:EpX; [|discriminate].
+    assert (pkR = pkM ++ pkX) by congruence. subst pkR. clear Hpubb.
+    destruct (mlkem_pub_len' _ _ _ EpM eq_refl) as [LpkM _].
+    assert (LpkM' : length pkM = mlkem768_ek_size) by (rewrite LpkM; reflexivity).
+    destruct (Nat.eqb_spec (length (pkM ++ pkX)) xw_public_key_size) as [Lpk|]; [|discriminate].
+    cbv beta iota in Henc. unfold negb in Henc.
+    rewrite <- LpkM' in Henc.
+    rewrite slice_head in Henc. cbn [bind] in Henc. rewrite slice_tail in Henc. cbn [bind] in Henc.
+    destruct (dh_pub X25519 (firstn 32 eph)) as [ctX|] eqn:EctX; [|discriminate].
+    destruct (dh X25519 (firstn 32 eph) pkX) as [ssX|] eqn:EssX; [|discriminate].
+    destruct (mlkem_encap MLKEM768 pkM (skipn 32 eph)) as [[ssM ctM]|] eqn:EM; [|discriminate].
+    assert (ss = xw_combiner sha3_256 ssM ssX ctX pkX /\ enc = ctM ++ ctX) as [-> ->] by (split; congruence).
+    destruct (mlkem_correct' _ _ _ _ _ _ EpM EM eq_refl) as [DM LctM].
+    destruct (dh_pub_len' _ _ _ EctX eq_refl) as [LctX _].
+    assert (LctM' : length ctM = mlkem768_ct_size) by (rewrite LctM; reflexivity).
+    assert (Lenc : length (ctM ++ ctX) = xw_ciphertext_size) by (rewrite app_length, LctM, LctX; reflexivity).
+    rewrite Lenc at 1. rewrite Nat.eqb_refl. unfold negb. cbv iota.
+    rewrite Hpuba. cbn [bind]. cbv beta iota.
+    rewrite <- LctM'.
+    rewrite slice_head. cbn [bind]. rewrite slice_tail. cbn [bind].
+    rewrite DM. rewrite (dh_comm' X25519 skX (firstn 32 eph) pkX ctX EpX EctX eq_refl), EssX, EpX.
+    split; [reflexivity|]. split; [rewrite Lenc; reflexivity|rewrite Lsk; reflexivity].
+  Qed.
+  (* ---- key schedule and single-shot context ---- *)
+  Lemma labeled_expand_ok h prk info label suite n x :
+    labeled_expand expand h prk info label suite n = Ok x ->
+    exists li, label_info label info suite n = Ok li /\ x = expand h prk li n /\ length x = n.
+  Proof.
+    unfold labeled_expand. intros H. inv_bind H. exists v. split; [assumption|].
+    destruct (Nat.ltb (255 * hash_len h) n); [discriminate|].
+    assert (x = expand h prk v n) by congruence. subst x. split; [reflexivity|apply expand_len].
+  Qed.
+
+  Lemma labeled_expand_never_panics h prk info label suite n :
+    labeled_expand expand h prk info label suite n <> Panic.
+  Proof.
+    unfold labeled_expand. apply bind_not_panic; [apply label_info_never_panics|].
+    intros li _. destruct (Nat.ltb _ _); discriminate.
+  Qed.
+
+  Lemma key_schedule_lengths k d a ss info key bn :
+    KeySchedule k d a ss info = Ok (key, bn) -> length key = n_k a /\ length bn = n_n a.
+  Proof.
+    unfold key_schedule. intros H. inv_bind H. inv_bind Hb.
+    assert (v = key /\ v0 = bn) as [-> ->] by (split; congruence).
+    apply labeled_expand_ok in Ha. apply labeled_expand_ok in Hba.
+    destruct Ha as (_ & _ & _ & L1). destruct Hba as (_ & _ & _ & L2). auto.
+  Qed.
+
+  Lemma key_schedule_never_panics k d a ss info : KeySchedule k d a ss info <> Panic.
+  Proof.
+    unfold key_schedule. apply bind_not_panic; [apply labeled_expand_never_panics|].
+    intros key _. apply bind_not_panic; [apply labeled_expand_never_panics|]. discriminate.
+  Qed.
+
+  Lemma increment_seq_0 a : increment_seq a 0 = Ok 1.
+  Proof. destruct a; reflexivity. Qed.
+
+  Lemma aead_open_sound a key nonce ct p :
+    aead_open open a key nonce ct [] = Ok p -> ct = seal a key nonce [] p.
+  Proof.
+    unfold aead_open. intros H. destruct a;
+      repeat match type of H with context [if ?c then _ else _] => destruct c eqn:?; try discriminate H end;
+      destruct (open _ key nonce [] ct) as [q|] eqn:E; try discriminate H;
+      assert (q = p) by congruence; subst q; apply open_sound in E; exact E.
+  Qed.
+
+  Lemma aead_open_seal a key nonce pt ct :
+    aead_seal seal a key nonce pt [] = Ok ct ->
+    ct = seal a key nonce [] pt /\ aead_open open a key nonce ct [] = Ok pt.
+  Proof.
+    unfold aead_seal, aead_open. intros H. destruct a;
+      repeat match type of H with context [if ?c then _ else _] => destruct c eqn:?; try discriminate H end;
+      match type of H with Ok ?x = Ok _ => assert (E : ct = x) by congruence end; subst ct;
+      rewrite open_seal; auto.
+  Qed.
+
+  Lemma aead_seal_never_panics a key nonce pt : length nonce = n_n a -> aead_seal seal a key nonce pt [] <> Panic.
+  Proof.
+    intros L. unfold aead_seal. destruct a;
+      repeat match goal with |- context [if ?c then _ else _] => destruct c eqn:?; try discriminate end.
+    rewrite L in *. discriminate.
+  Qed.
+
+  Lemma aead_open_never_panics a key nonce ct : length nonce = n_n a -> aead_open open a key nonce ct [] <> Panic.
+  Proof.
+    intros L. unfold aead_open. destruct a;
+      repeat match goal with |- context [if ?c then _ else _] => destruct c eqn:?; try discriminate end;
+      try (destruct (open _ _ _ _ _); discriminate).
+    rewrite L in *. discriminate.
+  Qed.
+
+  Lemma context_open_sound a key bn ct p :
+    ContextOpen a key bn ct = Ok p -> ct = seal a key bn [] p.
+  Proof.
+    unfold context_open. rewrite compute_nonce_seq0. cbn [bind]. intros H. inv_bind H.
+    rewrite increment_seq_0 in Hb. cbn [bind] in Hb. assert (v = p) by congruence. subst v.
+    apply aead_open_sound in Ha. exact Ha.
+  Qed.
+
+  Lemma context_seal_open a key bn pt ct :
+    ContextSeal a key bn pt = Ok ct -> ct = seal a key bn [] pt /\ ContextOpen a key bn ct = Ok pt.
+  Proof.
+    unfold context_seal, context_open. rewrite compute_nonce_seq0. cbn [bind]. intros H. inv_bind H.
+    rewrite increment_seq_0 in Hb. cbn [bind] in Hb. assert (v = ct) by congruence. subst v.
+    apply aead_open_seal in Ha. destruct Ha as [-> Ho]. split; [reflexivity|].
+    rewrite Ho. cbn [bind]. rewrite increment_seq_0. reflexivity.
+  Qed.
+
+  Lemma context_seal_never_panics a key bn pt : length bn = n_n a -> ContextSeal a key bn pt <> Panic.
+  Proof.
+    intros L. unfold context_seal. rewrite compute_nonce_seq0. cbn [bind].
+    apply bind_not_panic; [apply aead_seal_never_panics; exact L|].
+    intros ct _. rewrite increment_seq_0. discriminate.
+  Qed.
+
+  Lemma context_open_never_panics a key bn ct : length bn = n_n a -> ContextOpen a key bn ct <> Panic.
+  Proof.
+    intros L. unfold context_open. rewrite compute_nonce_seq0. cbn [bind].
+    apply bind_not_panic; [apply aead_open_never_panics; exact L|].
+    intros p _. rewrite increment_seq_0. discriminate.
+  Qed.
+
+  (* when does sealing succeed: always for ChaCha20-Poly1305, below the GCM limit for AES-GCM *)
+  Lemma context_seal_succeeds a key bn pt :
+    length key = n_k a -> length bn = n_n a -> N.of_nat (length pt) <= gcm_max_plaintext ->
+    ContextSeal a key bn pt = Ok (seal a key bn [] pt).
+  Proof.
+    intros Lk Ln Lp. unfold context_seal. rewrite compute_nonce_seq0. cbn [bind].
+    unfold aead_seal. rewrite Lk, Ln.
+    destruct (N.ltb_spec gcm_max_plaintext (N.of_nat (length pt))); [lia|].
+    destruct a; cbn; reflexivity.
+  Qed.
+  Lemma context_open_of_seal a key bn p :
+    length key = n_k a -> length bn = n_n a -> ContextOpen a key bn (seal a key bn [] p) = Ok p.
+  Proof.
+    intros Lk Ln. unfold context_open. rewrite compute_nonce_seq0. cbn [bind].
+    unfold aead_open. rewrite Lk, Ln, open_seal.
+    destruct a; cbn [negb Nat.eqb n_k n_n]; rewrite ?Nat.eqb_refl; cbn [negb bind]; rewrite increment_seq_0; reflexivity.
+  Qed.
+
+  (* ---- raw encrypt / decrypt ---- *)
+  Lemma raw_encrypt_ok k d a pkR eph info pt c :
+    RawEncrypt k d a pkR eph info pt = Ok c ->
+    exists ss enc key bn, Encap k pkR eph = Ok (ss, enc) /\ KeySchedule k d a ss info = Ok (key, bn) /\
+      c = enc ++ seal a key bn [] pt.
+  Proof.
+    unfold raw_encrypt. destruct (Nat.eqb (length pkR) 0); [discriminate|]. intros H.
+    inv_bind H. destruct v as [ss enc]. inv_bind Hb. destruct v as [key bn]. inv_bind Hbb.
+    apply context_seal_open in Hbba. destruct Hbba as [-> _].
+    exists ss, enc, key, bn. repeat split; auto. congruence.
+  Qed.
+
+  Lemma raw_decrypt_iff k d a skR c info p : length skR <> 0%nat ->
+    (RawDecrypt k d a skR c info = Ok p <->
+     exists enc ss key bn, length enc = n_enc k /\ Decap k enc skR = Ok ss /\
+       KeySchedule k d a ss info = Ok (key, bn) /\ c = enc ++ seal a key bn [] p).
+  Proof.
+    intros Lsk. unfold raw_decrypt.
+    destruct (Nat.eqb_spec (length skR) 0) as [E|_]; [contradiction|].
+    split.
+    - destruct (Nat.ltb_spec (length c) (n_enc k)) as [|Lc]; [discriminate|].
+      destruct (slice_split (n_enc k) c Lc) as (enc & act & -> & Lenc & S1 & S2).
+      rewrite S1, S2. cbn [bind]. intros H.
+      inv_bind H. rename v into ss. inv_bind Hb. destruct v as [key bn].
+      apply context_open_sound in Hbb. subst act.
+      exists enc, ss, key, bn. auto.
+    - intros (enc & ss & key & bn & Lenc & Hd & Hk & ->).
+      destruct (Nat.ltb_spec (length (enc ++ seal a key bn [] p)) (n_enc k)) as [L|_];
+        [rewrite app_length in L; lia|].
+      rewrite <- Lenc. rewrite slice_head, slice_tail. cbn [bind].
+      rewrite Hd. cbn [bind]. rewrite Hk. cbn [bind].
+      destruct (key_schedule_lengths _ _ _ _ _ _ _ Hk) as [Lk Ln].
+      apply context_open_of_seal; assumption.
+  Qed.
+
+  Lemma raw_decrypt_never_panics k d a skR c info :
+    (forall enc, length enc = n_enc k -> Decap k enc skR <> Panic) ->
+    RawDecrypt k d a skR c info <> Panic.
+  Proof.
+    intros Hdec. unfold raw_decrypt.
+    destruct (Nat.eqb (length skR) 0); [discriminate|].
+    destruct (Nat.ltb_spec (length c) (n_enc k)) as [|Lc]; [discriminate|].
+    destruct (slice_split (n_enc k) c Lc) as (enc & act & -> & Lenc & S1 & S2).
+    rewrite S1, S2. cbn [bind].
+    apply bind_not_panic; [apply Hdec; exact Lenc|]. intros ss _.
+    apply bind_not_panic; [apply key_schedule_never_panics|]. intros [key bn] Hk.
+    apply key_schedule_lengths in Hk. apply context_open_never_panics. apply Hk.
+  Qed.
+
+  (* decapsulation never panics on an encapsulated key of the KEM's length *)
+  Lemma dhkem_derive_never_panics k dhv e p : dhkem_derive extract expand k dhv e p <> Panic.
+  Proof. unfold dhkem_derive, extract_and_expand. apply labeled_expand_never_panics. Qed.
+
+  Lemma decap_never_panics k enc skR : length enc = n_enc k -> Decap k enc skR <> Panic.
+  Proof.
+    intros L. destruct k; unfold decap; cbv beta iota.
+    1-4: (destruct (dh _ skR enc); [|discriminate]; destruct (dh_pub _ skR); [|discriminate];
+          apply dhkem_derive_never_panics).
+    1-2: (destruct (mlkem_decap _ skR enc); discriminate).
+    unfold xw_dec, xw_decap.
+    destruct (negb (Nat.eqb (length enc) xw_ciphertext_size)); [discriminate|].
+    apply bind_not_panic.
+    { unfold xw_expand. destruct (negb _); discriminate. }
+    intros [seedM skX] _.
+    assert (L' : length enc = xw_ciphertext_size) by (rewrite L; reflexivity).
+    apply bind_not_panic; [apply slice_not_panic; [lia|rewrite L'; unfold mlkem768_ct_size, xw_ciphertext_size; lia]|].
+    intros ctM _.
+    apply bind_not_panic; [apply slice_not_panic; [rewrite L'; unfold mlkem768_ct_size, xw_ciphertext_size; lia|lia]|].
+    intros ctX _.
+    destruct (mlkem_decap _ _ _); [|discriminate]. destruct (dh _ _ _); [|discriminate].
+    destruct (dh_pub _ _); discriminate.
+  Qed.
+
+  (* ---- with the output prefix ---- *)
+  Theorem hpke_decrypt_iff k d a prefix skR c info p : length skR <> 0%nat ->
+    (Decrypt k d a prefix skR c info = Ok p <->
+     exists enc ss key bn, length enc = n_enc k /\ Decap k enc skR = Ok ss /\
+       KeySchedule k d a ss info = Ok (key, bn) /\ c = prefix ++ enc ++ seal a key bn [] p).
+  Proof.
+    intros Lsk. unfold hpke_decrypt. split.
+    - destruct (Nat.ltb_spec (length c) (length prefix)) as [|Lc]; [discriminate|].
+      destruct (slice_split (length prefix) c Lc) as (pf & rest & -> & Lpf & S1 & S2).
+      rewrite S1, S2. cbn [bind].
+      destruct (beq prefix pf) eqn:E; [|discriminate]. apply beq_eq in E. subst pf. cbn [negb].
+      intros H. apply (raw_decrypt_iff _ _ _ _ _ _ _ Lsk) in H.
+      destruct H as (enc & ss & key & bn & L & Hd & Hk & ->). exists enc, ss, key, bn. auto.
+    - intros (enc & ss & key & bn & L & Hd & Hk & ->).
+      destruct (Nat.ltb_spec (length (prefix ++ enc ++ seal a key bn [] p)) (length prefix)) as [L'|_];
+        [rewrite app_length in L'; lia|].
+      rewrite slice_head, slice_tail. cbn [bind]. rewrite beq_refl. cbn [negb].
+      apply (raw_decrypt_iff _ _ _ _ _ _ _ Lsk). exists enc, ss, key, bn. auto.
+  Qed.
+
+  Theorem hpke_round_trip k d a prefix skR pkR eph info pt c :
+    PubOf k skR = Ok pkR ->
+    Encrypt k d a prefix pkR eph info pt = Ok c ->
+    Decrypt k d a prefix skR c info = Ok pt.
+  Proof.
+    intros Hpub H. unfold hpke_encrypt in H. inv_bind H. rename v into raw.
+    assert (c = prefix ++ raw) by congruence. subst c.
+    apply raw_encrypt_ok in Ha. destruct Ha as (ss & enc & key & bn & He & Hk & ->).
+    destruct (kem_law _ _ _ _ _ _ Hpub He) as (Hd & Lenc & Lsk).
+    apply hpke_decrypt_iff; [rewrite Lsk; destruct k; discriminate|].
+    exists enc, ss, key, bn. auto.
+  Qed.
+
+  (* the ciphertext determines itself: recomputing it from the encapsulated key
+     it carries, the private key, info and plaintext gives the same bytes *)
+  Theorem hpke_recompute_eq k d a prefix skR pkR eph info pt c :
+    PubOf k skR = Ok pkR ->
+    Encrypt k d a prefix pkR eph info pt = Ok c ->
+    Recompute k d a prefix skR c info pt = Ok c.
+  Proof.
+    intros Hpub H. unfold hpke_encrypt in H. inv_bind H. rename v into raw.
+    assert (c = prefix ++ raw) by congruence. subst c.
+    unfold raw_encrypt in Ha. destruct (Nat.eqb (length pkR) 0); [discriminate|].
+    inv_bind Ha. destruct v as [ss enc]. inv_bind Hab. destruct v as [key bn]. inv_bind Habb.
+    assert (raw = enc ++ v) by congruence. subst raw.
+    destruct (kem_law _ _ _ _ _ _ Hpub Haa) as (Hd & Lenc & Lsk).
+    unfold hpke_recompute. rewrite <- Lenc. rewrite slice_mid. cbn [bind].
+    rewrite Hd. cbn [bind]. rewrite Haba. cbn [bind]. rewrite Habba. reflexivity.
+  Qed.
+
+  Theorem hpke_decrypt_never_panics k d a prefix skR c info :
+    Decrypt k d a prefix skR c info <> Panic.
+  Proof.
+    unfold hpke_decrypt.
+    destruct (Nat.ltb_spec (length c) (length prefix)) as [|Lc]; [discriminate|].
+    destruct (slice_split (length prefix) c Lc) as (pf & rest & -> & Lpf & S1 & S2).
+    rewrite S1, S2. cbn [bind]. destruct (negb (beq prefix pf)); [discriminate|].
+    apply raw_decrypt_never_panics. intros enc L. apply decap_never_panics. exact L.
+  Qed.
+  (* ---------------------------------------------------------------- *)
+  (* symbolic binding: a tampered (enc, info, key) is accepted only if *)
+  (* one of the primitives exhibits an explicit collision              *)
+  (* ---------------------------------------------------------------- *)
+  Definition extract_collision : Prop :=
+    exists h x s x' s', (x <> x' \/ s <> s') /\ extract h x s = extract h x' s'.
+  Definition expand_collision : Prop :=
+    exists h prk i prk' i' n, (prk <> prk' \/ i <> i') /\ expand h prk i n = expand h prk' i' n.
+  Definition seal_collision : Prop :=
+    exists a k n p k' n' p', (k <> k' \/ n <> n' \/ p <> p') /\ seal a k n [] p = seal a k' n' [] p'.
+  (* two different encapsulated keys that decapsulate to the same shared secret *)
+  Definition decap_collision (k : kem) (skR : bytes) : Prop :=
+    exists enc enc' ss, enc <> enc' /\ length enc = n_enc k /\ length enc' = n_enc k /\
+      Decap k enc skR = Ok ss /\ Decap k enc' skR = Ok ss.
+
+  Lemma extract_eq h x s x' s' : extract h x s = extract h x' s' -> (x = x' /\ s = s') \/ extract_collision.
+  Proof.
+    intros E. destruct (bytes_eq_dec x x') as [Ex|Nx].
+    - destruct (bytes_eq_dec s s') as [Es|Ns]; [left; auto|right; exists h, x, s, x', s'; auto].
+    - right; exists h, x, s, x', s'; auto.
+  Qed.
+
+  Lemma expand_eq h p i p' i' n : expand h p i n = expand h p' i' n -> (p = p' /\ i = i') \/ expand_collision.
+  Proof.
+    intros E. destruct (bytes_eq_dec p p') as [Ep|Np].
+    - destruct (bytes_eq_dec i i') as [Ei|Ni]; [left; auto|right; exists h, p, i, p', i', n; auto].
+    - right; exists h, p, i, p', i', n; auto.
+  Qed.
+
+  Lemma seal_eq a k n p k' n' p' : seal a k n [] p = seal a k' n' [] p' ->
+    (k = k' /\ n = n' /\ p = p') \/ seal_collision.
+  Proof.
+    intros E.
+    destruct (bytes_eq_dec k k') as [Ek|Nk]; [|right; exists a, k, n, p, k', n', p'; auto].
+    destruct (bytes_eq_dec n n') as [En|Nn]; [|right; exists a, k, n, p, k', n', p'; auto].
+    destruct (bytes_eq_dec p p') as [Ep|Np]; [|right; exists a, k, n, p, k', n', p'; auto].
+    left; auto.
+  Qed.
+
+  (* equal AEAD keys out of the key schedule force equal shared secrets and infos *)
+  Lemma key_schedule_key_inj k d a ss info ss' info' key bn bn' :
+    KeySchedule k d a ss info = Ok (key, bn) -> KeySchedule k d a ss' info' = Ok (key, bn') ->
+    (ss = ss' /\ info = info') \/ extract_collision \/ expand_collision.
+  Proof.
+    unfold key_schedule. intros H H'.
+    inv_bind H. inv_bind Hb. inv_bind H'. inv_bind H'b.
+    assert (v = key) by congruence. assert (v1 = key) by congruence. subst v v1.
+    clear Hbb H'bb Hba H'ba.
+    apply labeled_expand_ok in Ha. apply labeled_expand_ok in H'a.
+    destruct Ha as (li & Hli & Ek & _). destruct H'a as (li' & Hli' & Ek' & _).
+    rewrite Ek in Ek'. apply expand_eq in Ek'. destruct Ek' as [[Es El]|C]; [|auto].
+    subst li'. pose proof (label_info_inj _ _ _ _ _ _ Hli Hli') as Ectx.
+    unfold key_schedule_context in Ectx. injection Ectx as Ectx. apply app_inv_head in Ectx.
+    unfold labeled_extract in Es, Ectx.
+    apply extract_eq in Es. apply extract_eq in Ectx.
+    destruct Es as [[_ Es]|C]; [|auto]. destruct Ectx as [[Ei _]|C]; [|auto].
+    apply label_ikm_inj in Ei. auto.
+  Qed.
+
+  Definition collision_somewhere (k : kem) (skR : bytes) : Prop :=
+    extract_collision \/ expand_collision \/ seal_collision \/ decap_collision k skR.
+
+  (* the honest ciphertext, taken apart *)
+  Lemma encrypt_shape k d a prefix skR pkR eph info pt c :
+    PubOf k skR = Ok pkR -> Encrypt k d a prefix pkR eph info pt = Ok c ->
+    exists enc ss key bn, length enc = n_enc k /\ Decap k enc skR = Ok ss /\
+      KeySchedule k d a ss info = Ok (key, bn) /\ c = prefix ++ enc ++ seal a key bn [] pt /\
+      length skR <> 0%nat.
+  Proof.
+    intros Hpub H. unfold hpke_encrypt in H. inv_bind H. rename v into raw.
+    assert (c = prefix ++ raw) by congruence. subst c.
+    apply raw_encrypt_ok in Ha. destruct Ha as (ss & enc & key & bn & He & Hk & ->).
+    destruct (kem_law _ _ _ _ _ _ Hpub He) as (Hd & Lenc & Lsk).
+    exists enc, ss, key, bn. repeat split; auto. rewrite Lsk. destruct k; discriminate.
+  Qed.
+
+  (* change of the encapsulated key and/or the context info, payload untouched *)
+  Theorem hpke_binding_enc_info k d a prefix skR pkR eph info pt c enc payload enc' info' p' :
+    PubOf k skR = Ok pkR ->
+    Encrypt k d a prefix pkR eph info pt = Ok c ->
+    c = prefix ++ enc ++ payload -> length enc = n_enc k -> length enc' = n_enc k ->
+    (enc' <> enc \/ info' <> info) ->
+    Decrypt k d a prefix skR (prefix ++ enc' ++ payload) info' = Ok p' ->
+    collision_somewhere k skR.
+  Proof.
+    intros Hpub Henc Hc Le Le' Hne Hdec.
+    destruct (encrypt_shape _ _ _ _ _ _ _ _ _ _ Hpub Henc) as (enc0 & ss & key & bn & L0 & Hd & Hk & Hc0 & Lsk).
+    rewrite Hc in Hc0. apply app_inv_head in Hc0.
+    apply app_inv_length in Hc0; [|congruence]. destruct Hc0 as [<- Hpay].
+    apply (hpke_decrypt_iff _ _ _ _ _ _ _ _ Lsk) in Hdec.
+    destruct Hdec as (enc1 & ss' & key' & bn' & L1 & Hd' & Hk' & Hc1).
+    apply app_inv_head in Hc1. apply app_inv_length in Hc1; [|congruence]. destruct Hc1 as [<- Hpay'].
+    rewrite Hpay in Hpay'. apply seal_eq in Hpay'.
+    destruct Hpay' as [(<- & <- & <-)|C]; [|right; right; left; exact C].
+    destruct (key_schedule_key_inj _ _ _ _ _ _ _ _ _ _ Hk Hk') as [[<- <-]|[C|C]];
+      [|left; exact C|right; left; exact C].
+    destruct Hne as [Hne|Hne]; [|contradiction].
+    right; right; right. exists enc, enc', ss. repeat split; auto.
+  Qed.
+
+  (* for the Diffie-Hellman KEMs the KEM context enc || pkR rules a decapsulation
+     collision out symbolically *)
+  Lemma dhkem_decap_shape k enc skR ss : is_dhkem k = true -> Decap k enc skR = Ok ss ->
+    exists prk pkR li, dh_pub k skR = Some pkR /\
+      label_info l_shared_secret (enc ++ pkR) (kem_suite_id k) (hash_len (kem_hash k)) = Ok li /\
+      ss = expand (kem_hash k) prk li (hash_len (kem_hash k)).
+  Proof.
+    intros Hk H. destruct k; try discriminate; unfold decap in H; cbv beta iota in H;
+      (destruct (dh _ skR enc) as [dhv|]; [|discriminate]);
+      (destruct (dh_pub _ skR) as [pkR|] eqn:Ep; [|discriminate]);
+      unfold dhkem_derive, extract_and_expand in H; apply labeled_expand_ok in H;
+      destruct H as (li & Hli & -> & _);
+      eexists; exists pkR, li; (split; [reflexivity|split; [exact Hli|reflexivity]]).
+  Qed.
+
+  Lemma dhkem_no_decap_collision k skR : is_dhkem k = true -> decap_collision k skR -> expand_collision.
+  Proof.
+    intros Hk (enc & enc' & ss & Hne & L & L' & H & H').
+    apply dhkem_decap_shape in H; [|assumption]. apply dhkem_decap_shape in H'; [|assumption].
+    destruct H as (prk & pkR & li & Ep & Hli & Es). destruct H' as (prk' & pkR' & li' & Ep' & Hli' & Es').
+    assert (pkR' = pkR) by congruence. subst pkR'.
+    rewrite Es in Es'. apply expand_eq in Es'. destruct Es' as [[_ El]|C]; [|exact C].
+    subst li'. pose proof (label_info_inj _ _ _ _ _ _ Hli Hli') as E.
+    apply app_inv_tail in E. contradiction.
+  Qed.
+
+  Theorem hpke_binding_enc_info_dhkem k d a prefix skR pkR eph info pt c enc payload enc' info' p' :
+    is_dhkem k = true ->
+    PubOf k skR = Ok pkR ->
+    Encrypt k d a prefix pkR eph info pt = Ok c ->
+    c = prefix ++ enc ++ payload -> length enc = n_enc k -> length enc' = n_enc k ->
+    (enc' <> enc \/ info' <> info) ->
+    Decrypt k d a prefix skR (prefix ++ enc' ++ payload) info' = Ok p' ->
+    extract_collision \/ expand_collision \/ seal_collision.
+  Proof.
+    intros Hk Hpub Henc Hc Le Le' Hne Hdec.
+    destruct (hpke_binding_enc_info _ _ _ _ _ _ _ _ _ _ _ _ _ _ _ Hpub Henc Hc Le Le' Hne Hdec) as [C|[C|[C|C]]]; auto.
+    right; left. eapply dhkem_no_decap_collision; eauto.
+  Qed.
+
+  (* decryption with another private key (DHKEM): the recipient public key is part of the KEM context *)
+  Theorem hpke_binding_other_key_dhkem k d a prefix skR pkR skR' pkR' eph info pt c p' :
+    is_dhkem k = true ->
+    PubOf k skR = Ok pkR -> PubOf k skR' = Ok pkR' -> pkR' <> pkR ->
+    Encrypt k d a prefix pkR eph info pt = Ok c ->
+    Decrypt k d a prefix skR' c info = Ok p' ->
+    extract_collision \/ expand_collision \/ seal_collision.
+  Proof.
+    intros Hk Hpub Hpub' Hne Henc Hdec.
+    destruct (encrypt_shape _ _ _ _ _ _ _ _ _ _ Hpub Henc) as (enc & ss & key & bn & L & Hd & Hks & -> & Lsk).
+    assert (Lsk' : length skR' <> 0%nat).
+    { destruct k; try discriminate; unfold public_from_private in Hpub'; cbv beta iota in Hpub';
+        (destruct (dh_pub _ skR') eqn:E; [|discriminate]);
+        destruct (dh_pub_len' _ _ _ E eq_refl) as [_ L']; rewrite L'; discriminate. }
+    apply (hpke_decrypt_iff _ _ _ _ _ _ _ _ Lsk') in Hdec.
+    destruct Hdec as (enc1 & ss' & key' & bn' & L1 & Hd' & Hk' & Hc1).
+    apply app_inv_head in Hc1. apply app_inv_length in Hc1; [|congruence]. destruct Hc1 as [<- Hpay].
+    apply seal_eq in Hpay. destruct Hpay as [(<- & <- & <-)|C]; [|auto].
+    destruct (key_schedule_key_inj _ _ _ _ _ _ _ _ _ _ Hks Hk') as [[<- _]|[C|C]]; auto.
+    apply dhkem_decap_shape in Hd; [|assumption]. apply dhkem_decap_shape in Hd'; [|assumption].
+    destruct Hd as (prk & pk1 & li & Ep & Hli & Es). destruct Hd' as (prk' & pk2 & li' & Ep' & Hli' & Es').
+    assert (pk1 = pkR /\ pk2 = pkR') as [-> ->].
+    { destruct k; try discriminate; unfold public_from_private in Hpub, Hpub'; cbv beta iota in Hpub, Hpub';
+        rewrite Ep in Hpub; rewrite Ep' in Hpub'; split; congruence. }
+    rewrite Es in Es'. apply expand_eq in Es'. destruct Es' as [[_ El]|C]; [|auto].
+    subst li'. pose proof (label_info_inj _ _ _ _ _ _ Hli Hli') as E.
+    apply app_inv_head in E. congruence.
+  Qed.
+
+  (* a different output prefix (other key id or other variant byte) is rejected outright *)
+  Theorem hpke_binding_prefix k d a prefix skR prefix' rest info :
+    length prefix' = length prefix -> prefix' <> prefix ->
+    Decrypt k d a prefix skR (prefix' ++ rest) info = Err.
+  Proof.
+    intros L Hne. unfold hpke_decrypt.
+    destruct (Nat.ltb_spec (length (prefix' ++ rest)) (length prefix)) as [|_]; [reflexivity|].
+    rewrite <- L. rewrite slice_head. cbn [bind].
+    assert (E : beq prefix prefix' = false) by (apply beq_false; congruence).
+    rewrite E. reflexivity.
+  Qed.
+
+  (* a changed payload is accepted only as a genuine seal, under the very key and
+     nonce of the honest ciphertext, of the (different) plaintext it returns *)
+  Theorem hpke_binding_payload k d a prefix skR pkR eph info pt c enc payload payload' p' :
+    PubOf k skR = Ok pkR ->
+    Encrypt k d a prefix pkR eph info pt = Ok c ->
+    c = prefix ++ enc ++ payload -> length enc = n_enc k -> payload' <> payload ->
+    Decrypt k d a prefix skR (prefix ++ enc ++ payload') info = Ok p' ->
+    exists key bn, payload = seal a key bn [] pt /\ payload' = seal a key bn [] p' /\ p' <> pt.
+  Proof.
+    intros Hpub Henc Hc Le Hne Hdec.
+    destruct (encrypt_shape _ _ _ _ _ _ _ _ _ _ Hpub Henc) as (enc0 & ss & key & bn & L0 & Hd & Hk & Hc0 & Lsk).
+    rewrite Hc in Hc0. apply app_inv_head in Hc0.
+    apply app_inv_length in Hc0; [|congruence]. destruct Hc0 as [<- Hpay].
+    apply (hpke_decrypt_iff _ _ _ _ _ _ _ _ Lsk) in Hdec.
+    destruct Hdec as (enc1 & ss' & key' & bn' & L1 & Hd' & Hk' & Hc1).
+    apply app_inv_head in Hc1. apply app_inv_length in Hc1; [|congruence]. destruct Hc1 as [<- Hpay'].
+    assert (ss' = ss) by congruence. subst ss'.
+    assert (key' = key /\ bn' = bn) as [-> ->] by (split; congruence).
+    exists key, bn. repeat split; auto. intros ->. congruence.
+  Qed.
+
+  (* the same, as an outcome: a changed encapsulated key / info yields Err unless
+     the tampered computation collides with the honest one in a primitive *)
+  Corollary hpke_binding_enc_info_err k d a prefix skR pkR eph info pt c enc payload enc' info' :
+    PubOf k skR = Ok pkR ->
+    Encrypt k d a prefix pkR eph info pt = Ok c ->
+    c = prefix ++ enc ++ payload -> length enc = n_enc k -> length enc' = n_enc k ->
+    (enc' <> enc \/ info' <> info) ->
+    Decrypt k d a prefix skR (prefix ++ enc' ++ payload) info' = Err \/ collision_somewhere k skR.
+  Proof.
+    intros Hpub Henc Hc Le Le' Hne.
+    destruct (Decrypt k d a prefix skR (prefix ++ enc' ++ payload) info') as [p'| |] eqn:E; [|left; reflexivity|].
+    - right. exact (hpke_binding_enc_info _ _ _ _ _ _ _ _ _ _ _ _ _ _ _ Hpub Henc Hc Le Le' Hne E).
+    - exfalso. exact (hpke_decrypt_never_panics _ _ _ _ _ _ _ E).
+  Qed.
+End HpkeTheorems.
+
+(* ------------------------------------------------------------------ *)
+(* a toy instance of the oracles: the laws are jointly satisfiable     *)
+(* ------------------------------------------------------------------ *)
+Definition toy_sum (b : bytes) : N := fold_left N.add b 0 mod 256.
+Definition toy_extract (h : hash) (ikm salt : bytes) : bytes := ikm ++ salt.
+Definition toy_expand (h : hash) (prk info : bytes) (n : nat) : bytes := repeat (toy_sum (prk ++ info)) n.
+Definition toy_dh (k : kem) (a B : bytes) : option bytes := Some [7].
+Definition toy_dh_pub (k : kem) (sk : bytes) : option bytes :=
+  if Nat.eqb (length sk) (n_sk k) then Some (zeros (n_pk k)) else None.
+Definition toy_mlkem_decap (k : kem) (seed ct : bytes) : option bytes := Some [9].
+Definition toy_mlkem_encap (k : kem) (pk coins : bytes) : option (bytes * bytes) := Some ([9], zeros (n_enc k)).
+Definition toy_mlkem_pub (k : kem) (seed : bytes) : option bytes :=
+  if Nat.eqb (length seed) 64 then Some (zeros (n_pk k)) else None.
+Definition toy_shake256 (m : bytes) (n : nat) : bytes := zeros n.
+Definition toy_sha3 (m : bytes) : bytes := zeros 32.
+(* a "cipher" that writes key and nonce in front of the plaintext: Open checks them *)
+Definition toy_seal (a : aead) (k n ad p : bytes) : bytes := k ++ n ++ p.
+Definition toy_open (a : aead) (k n ad c : bytes) : option bytes :=
+  if beq (firstn (length k + length n) c) (k ++ n) then Some (skipn (length k + length n) c) else None.
+
+Lemma toy_expand_len h prk info n : length (toy_expand h prk info n) = n.
+Proof. apply repeat_length. Qed.
+Lemma toy_dh_comm k a b A B : is_dhkem k = true ->
+  toy_dh_pub k a = Some A -> toy_dh_pub k b = Some B -> toy_dh k a B = toy_dh k b A.
+Proof. reflexivity. Qed.
+Lemma toy_dh_pub_len k sk p : is_dhkem k = true ->
+  toy_dh_pub k sk = Some p -> length p = n_pk k /\ length sk = n_sk k.
+Proof.
+  intros _. unfold toy_dh_pub. destruct (Nat.eqb_spec (length sk) (n_sk k)); [|discriminate].
+  intros H. injection H as <-. rewrite zeros_length. auto.
+Qed.
+Lemma toy_mlkem_correct k seed pk coins ss ct : is_mlkem k = true ->
+  toy_mlkem_pub k seed = Some pk -> toy_mlkem_encap k pk coins = Some (ss, ct) ->
+  toy_mlkem_decap k seed ct = Some ss /\ length ct = n_enc k.
+Proof.
+  intros _ _ H. unfold toy_mlkem_encap in H. injection H as <- <-. rewrite zeros_length. auto.
+Qed.
+Lemma toy_mlkem_pub_len k seed pk : is_mlkem k = true ->
+  toy_mlkem_pub k seed = Some pk -> length pk = n_pk k /\ length seed = 64%nat.
+Proof.
+  intros _. unfold toy_mlkem_pub. destruct (Nat.eqb_spec (length seed) 64); [|discriminate].
+  intros H. injection H as <-. rewrite zeros_length. auto.
+Qed.
+Lemma toy_open_seal a k n ad p : toy_open a k n ad (toy_seal a k n ad p) = Some p.
+Proof.
+  unfold toy_open, toy_seal. rewrite app_assoc.
+  rewrite <- (app_length k n). rewrite firstn_app, Nat.sub_diag, firstn_all. simpl. rewrite app_nil_r.
+  rewrite beq_refl. rewrite skipn_app, Nat.sub_diag, skipn_all. reflexivity.
+Qed.
+Lemma toy_open_sound a k n ad c p : toy_open a k n ad c = Some p -> c = toy_seal a k n ad p.
+Proof.
+  unfold toy_open, toy_seal. destruct (beq _ _) eqn:E; [|discriminate]. intros H. injection H as <-.
+  apply beq_eq in E. rewrite app_assoc, <- E. symmetry. apply firstn_skipn.
+Qed.
